@@ -279,6 +279,104 @@ def function_dark_ratio_bounds(v):
     return lo, hi
 
 
+# ---------------------------------------------------------- symbol geometry
+# Region map of an empty symbol, written from ISO/IEC 18004 6.3 (finder 6.3.3, separators 6.3.4,
+# timing 6.3.5, alignment 6.3.6 + Annex E), 7.9 (format information, Figure 25) and 7.10 (version
+# information, Figure 27/28).  Independent of the repository's drawing code.
+FINDER, SEPARATOR, TIMING, ALIGNMENT, DARK_MODULE, FORMAT, VERSION_INFO, DATA = (
+    "FinderPattern", "Empty", "Timing", "Alignment", "DarkModule", "Format", "Version", "Data")
+
+
+def format_positions(n):
+    """bit k (0 = least significant) of the 15-bit format word -> its two (row, column) positions"""
+    pos = {}
+    for k in range(0, 6):
+        pos[k] = [(k, 8)]
+    pos[6] = [(7, 8)]
+    pos[7] = [(8, 8)]
+    pos[8] = [(8, 7)]
+    for k in range(9, 15):
+        pos[k] = [(8, 14 - k)]
+    for k in range(0, 8):
+        pos[k].append((8, n - 1 - k))
+    for k in range(8, 15):
+        pos[k].append((n - 15 + k, 8))
+    return pos
+
+
+def version_positions(n):
+    """bit k of the 18-bit version word -> its two positions (upper-right block, lower-left block)"""
+    return {k: [(k // 3, n - 11 + k % 3), (n - 11 + k % 3, k // 3)] for k in range(18)}
+
+
+def region_map(v):
+    """{(row, col): (region, value)} for every module of a version-v symbol.
+    value is True (dark) / False (light) for function modules whose value the standard fixes,
+    the version-word bit for version information, and None for format and data modules.
+    Where an alignment pattern lies on a timing line (row/column 6) both regions prescribe the
+    same value; the region is reported as ALIGNMENT and `also` lists TIMING."""
+    n = side(v)
+    m = {}
+    for r in range(n):
+        for c in range(n):
+            m[(r, c)] = (DATA, None)
+    # timing first (everything else overrides it)
+    for i in range(8, n - 8):
+        m[(6, i)] = (TIMING, i % 2 == 0)
+        m[(i, 6)] = (TIMING, i % 2 == 0)
+    # finders with separators
+    for (r0, c0) in ((0, 0), (0, n - 7), (n - 7, 0)):
+        for dr in range(-1, 8):
+            for dc in range(-1, 8):
+                r, c = r0 + dr, c0 + dc
+                if not (0 <= r < n and 0 <= c < n):
+                    continue
+                if 0 <= dr <= 6 and 0 <= dc <= 6:
+                    ring = max(abs(dr - 3), abs(dc - 3))
+                    m[(r, c)] = (FINDER, ring != 2)
+                else:
+                    m[(r, c)] = (SEPARATOR, False)
+    # alignment patterns
+    cs = ALIGN_TABLE[v - 1]
+    for i, r0 in enumerate(cs):
+        for j, c0 in enumerate(cs):
+            if (i == 0 and j == 0) or (i == 0 and j == len(cs) - 1) or (i == len(cs) - 1 and j == 0):
+                continue
+            for dr in range(-2, 3):
+                for dc in range(-2, 3):
+                    m[(r0 + dr, c0 + dc)] = (ALIGNMENT, max(abs(dr), abs(dc)) != 1)
+    # dark module
+    m[(4 * v + 9, 8)] = (DARK_MODULE, True)
+    # format information
+    for k, ps in format_positions(n).items():
+        for p in ps:
+            m[p] = (FORMAT, None)
+    # version information
+    if v >= 7:
+        w = version_word(v)
+        for k, ps in version_positions(n).items():
+            for p in ps:
+                m[p] = (VERSION_INFO, bool((w >> k) & 1))
+    return m
+
+
+def alignment_on_timing(v):
+    """coordinates where an alignment pattern overlaps a timing line"""
+    n = side(v)
+    out = set()
+    cs = ALIGN_TABLE[v - 1]
+    for i, r0 in enumerate(cs):
+        for j, c0 in enumerate(cs):
+            if (i == 0 and j == 0) or (i == 0 and j == len(cs) - 1) or (i == len(cs) - 1 and j == 0):
+                continue
+            for dr in range(-2, 3):
+                for dc in range(-2, 3):
+                    r, c = r0 + dr, c0 + dc
+                    if (r == 6 or c == 6) and 8 <= (c if r == 6 else r) < n - 8:
+                        out.add((r, c))
+    return out
+
+
 def self_check():
     """internal consistency of the reference itself"""
     errs = []
@@ -299,6 +397,15 @@ def self_check():
         errs.append("version BCH")
     if generator_exponents(7) != [0, 87, 229, 146, 149, 238, 102, 21]:
         errs.append("generator degree 7")
+    for v in range(1, 41):
+        rm = region_map(v)
+        if sum(1 for t, _ in rm.values() if t == DATA) != raw_modules(v):
+            errs.append("region map data-module count at V%d" % v)
+        for (r, c) in alignment_on_timing(v):
+            if rm[(r, c)][1] != ((c if r == 6 else r) % 2 == 0):
+                errs.append("alignment/timing disagreement at V%d (%d,%d)" % (v, r, c))
+        if len({p for ps in format_positions(side(v)).values() for p in ps}) != 30:
+            errs.append("format positions at V%d" % v)
     if capacity(1, "L", "Numeric") != 41 or capacity(40, "H", "Byte") != 1273 or capacity(40, "L", "Numeric") != 7089:
         errs.append("capacity")
     return errs
